@@ -20,7 +20,7 @@ TRUSTED = ['correspondence harness harness/props/c07.py (recovers id-indexed spa
            'ids of epigraph variables and the dummy column id are observed inputs of the model (uniqueness is C20)',
            'scipy.sparse csc construction (duplicate summation, eliminate_zeros)']
 ASSUMPTIONS = ['Model/Compile.v is hand written; tied by correspondence only',
-               'PowCone / LMI (PSD) constraints are not modelled: covered only by the repository tests',
+               'PowCone is modelled on its own (Model/PowCone.v, rows and weights; not part of compile_sound/complete); LMI (PSD) constraints are not modelled (semantic oracle only)',
                'equivalence theorems assume the DCP guard (convex atoms with nonnegative coefficients in <= rows); outside it '
                'sageopt silently relaxes (known finding F8)']
 HEADER = ('From Coq Require Import List Bool Arith ZArith QArith.\n'
@@ -428,6 +428,7 @@ def run(ctx):
         if why:
             ctx.problem('oracle', 'property fails on the implementation: ' + why, inputs={'suite': 'lmi'}, failing_input_found=True)
             break
+    pow_suite(ctx)
     for _ in range(ctx.n(12, 100)):
         why = oracle_powcone(ctx.rng)
         ctx.evaluations += 1
@@ -499,6 +500,113 @@ def oracle_lmi(rng):
             return ('the constraint "X %s" with M = %s: at X = %s the inequality as written %s, but the compiled rows form the matrix %s (min eigenvalue %g)'
                     % (how if how in ('<<', '>>') else how, M.tolist(), V.tolist(), 'holds' if ew.min() >= 0 else 'fails', S.tolist(), eg.min()))
     return None
+
+
+POW_HEADER = ('From Coq Require Import List Bool Arith ZArith QArith.\n'
+              'From SageVerif Require Import Model.Expr Model.SolverForms Model.Compile Model.PowCone Base.Corr.\nImport ListNotations.\n'
+              '(* 0 = ValueError, 1 = outside the documented domain (not compared), 2 = rows *)\n'
+              'Definition model (x : Z * list sexpr * list Q) : nat * (list cone * list rrow * list Q) :=\n'
+              "  let '(dummy, w, lamb) := x in match pow_conic_form dummy w lamb with\n"
+              '  | PowValueError => (0%nat, ([], [], [])) | PowOutside => (1%nat, ([], [], []))\n'
+              '  | PowOk K rows wt => (2%nat, (K, map canon_row rows, wt)) end.\n'
+              'Definition out_eqb (m i : nat * (list cone * list rrow * list Q)) : bool :=\n'
+              '  Nat.eqb (fst m) (fst i) && (Nat.eqb (fst m) 1 || (list_eqb\' cone_eqb (fst (fst (snd m))) (fst (fst (snd i))) &&\n'
+              '    list_eqb\' rrow_eqb (snd (fst (snd m))) (snd (fst (snd i))) && list_eqb\' Qeq_bool (snd (snd m)) (snd (snd i)))).')
+
+
+def pow_case(rng):
+    """(json, coq input, coq output) for one PowCone(w, lamb): the constructor and conic_form against Model/PowCone.pow_conic_form"""
+    import sageopt.coniclifts as cl
+    from sageopt.coniclifts.base import ScalarVariable, Expression
+    from sageopt.coniclifts.constraints.set_membership.pow_cone import PowCone
+    from harness.props import c08
+    n = rng.randint(1, 4)
+    kind = rng.choice(['valid'] * 6 + ['size', 'allpos', 'sum', 'zero_entry', 'two_neg'])
+    zpos = rng.randrange(n + 1)
+    while True:
+        # the positive entries add up to a power of two, so that the normalised weights lamb_i / |lamb_neg| are exact binary fractions
+        tot = Fraction(rng.choice([1, 2, 4, 8]))
+        pos = [Fraction(rng.randint(1, 12), 4) for _ in range(n - 1)]
+        last = tot - sum(pos)
+        if last > 0:
+            pos.append(last)
+            break
+    # |lamb_neg| a power of two whenever possible so that the normalised weights are exact binary fractions
+    lam = pos[:zpos] + [-tot] + pos[zpos:]
+    if kind == 'allpos':
+        lam = [abs(v) for v in lam]
+    elif kind == 'sum':
+        lam[zpos] = lam[zpos] - Fraction(rng.choice([1, 2]), 4)
+    elif kind == 'zero_entry' and n >= 2:
+        k0 = rng.choice([i for i in range(n + 1) if i != zpos])
+        lam[zpos] += lam[k0]
+        lam[k0] = Fraction(0)
+    elif kind == 'two_neg' and n >= 2:
+        k0 = rng.choice([i for i in range(n + 1) if i != zpos])
+        lam[zpos] += 2 * lam[k0]
+        lam[k0] = -lam[k0]
+    x = cl.Variable(shape=(n + 1,), name='pwc')
+    cells = []
+    for i in range(n + 1):
+        r = rng.random()
+        if r < 0.15:
+            cells.append(Expression([float(rng.choice([0, 1, 2, 0.5]))])[0])           # a constant cell: the dummy column
+        elif r < 0.6:
+            cells.append(x[i] * 1.0)
+        else:
+            j = rng.randrange(n + 1)
+            cells.append(float(rng.choice([1, 2, -1, 0.5])) * x[i] + float(rng.choice([1, -2, 0.25])) * x[j] + float(rng.choice([0, 1, -0.5])))
+    w = Expression(cells)
+    if kind == 'size':
+        w = Expression(cells[:-1])
+    lamb = np.array([float(v) for v in lam])
+    wdesc = [c08.cell_desc(se) for se in w.flat]
+    js = {'kind': kind, 'lamb': [str(v) for v in lam], 'n': n, 'zpos': zpos}
+    try:
+        with warnings.catch_warnings():
+            warnings.simplefilter('ignore')
+            con = PowCone(w, lamb)
+            dummy = int(ScalarVariable.curr_variable_count()) - 1
+            (blk,) = con.conic_form()
+    except ValueError:
+        # outside the documented domain (a zero entry, two negative entries) numpy broadcasting decides what happens: not compared
+        outside = kind in ('zero_entry', 'two_neg') and n >= 2
+        return js, cq((0, wdesc, lam)), cq((Nat(1 if outside else 0), ([], [], [])))
+    except Exception as e:
+        js['error'] = type(e).__name__
+        return js, cq((0, wdesc, lam)), cq((Nat(1), ([], [], [])))
+    A_vals, A_rows, A_cols, b, K = blk
+    m = len(b)
+    rows = [dict() for _ in range(m)]
+    for v, r, c in zip(list(A_vals), np.asarray(A_rows).tolist(), list(A_cols)):
+        rows[int(r)][int(c)] = rows[int(r)].get(int(c), 0.0) + float(v)
+    out_rows = []
+    for r, bv in zip(rows, np.asarray(b, dtype=float).tolist()):
+        out_rows.append(([(i, qe(v)) for i, v in sorted(r.items()) if v != 0], qe(bv)))
+    Kd = [(Raw({'pow': 'TPow'}.get(co.type, TAG.get(co.type, 'T0'))), Nat(int(co.len))) for co in K]
+    wts = [Fraction(float(v)) for v in np.asarray(K[0].annotations['weights'], dtype=float).ravel().tolist()]
+    code = 2 if kind in ('valid',) or (kind in ('zero_entry', 'two_neg') and n < 2) else 1
+    return js, cq((dummy, wdesc, lam)), cq((Nat(code), (Kd, out_rows, wts)))
+
+
+def pow_suite(ctx):
+    cases = []
+    for _ in range(ctx.n(150, 1500)):
+        js, cin, cout = pow_case(ctx.rng)
+        ctx.count('powcone.kind', js['kind'])
+        cases.append((js, cin, cout))
+    ctx.evaluations += len(cases)
+    mism, err = vlib.run_suite_in_coq(ctx.pid, 'powcone_rows', POW_HEADER, 'model', 'out_eqb', 'Z * list sexpr * list Q',
+                                      'nat * (list cone * list rrow * list Q)', [(c[1], c[2]) for c in cases], shard=150)
+    ctx.suites['powcone_rows'] = {'cases': len(cases), 'mismatches': None if mism is None else len(mism)}
+    if err:
+        ctx.problem('correspondence', 'suite powcone_rows: ' + err)
+        return
+    for idx in mism[:3]:
+        model_out = vlib.coq_show(POW_HEADER, 'model %s' % cases[idx][1])
+        ctx.problem('correspondence', 'suite powcone_rows: model and implementation disagree on %s; input=%s impl=%s model=%s'
+                    % (cases[idx][0], cases[idx][1][:800], cases[idx][2][:800], model_out[:800]), inputs={'powcone': cases[idx][0]},
+                    failing_input_found=False)
 
 
 def oracle_powcone(rng):
